@@ -275,7 +275,7 @@ Definition Inv (st : state) : Prop :=
 Fixpoint hashed_in (ops : list op) (st : state) : Prop :=
   match ops with
   | [] => True
-  | o :: r => match o with Run _ _ _ => Forall D (hashed_now st) | _ => True end /\ hashed_in r (fst (step st o))
+  | o :: r => match o with Run _ _ _ | RunRaced _ _ _ _ _ => Forall D (hashed_now st) | _ => True end /\ hashed_in r (fst (step st o))
   end.
 
 Lemma Inv_empty : forall d b v, Inv {| dir := d; dep := b; ver := v; cache := [] |}.
@@ -312,11 +312,105 @@ Proof.
     + apply HI.
 Qed.
 
-Lemma run_ops_inv : forall ops st, Inv st -> hashed_in ops st -> Inv (run_ops ops st).
+(* ---- invocations raced by an edit ---- *)
+
+(* a raced build whose compiler saw the EDITED magefiles stores their program under the name of
+   the contents that were hashed: that name is tainted *)
+Definition taints (o : op) : bool := match o with RunRaced _ _ _ (REdit _ _) true => true | _ => false end.
+Fixpoint tainted (ops : list op) (st : state) : list string :=
+  match ops with
+  | [] => []
+  | o :: r => (if taints o then [exe_name H tpl (ver program st) (dir program st)] else []) ++ tainted r (fst (step st o))
+  end.
+
+(* content addressing except under the names in T *)
+Definition InvT (T : string -> Prop) (st : state) : Prop :=
+  forall n p, lookup program n (cache program st) = Some p -> ~ T n ->
+              exists v d fs, p = compile v d fs /\ exe_name H tpl v fs = n /\ Forall D (hashed H tpl v fs).
+
+Lemma Inv_InvT : forall st, Inv st -> InvT (fun _ => False) st.
+Proof. intros st HI n p E _. exact (HI n p E). Qed.
+
+Lemma InvT_Inv : forall st, InvT (fun _ => False) st -> Inv st.
+Proof. intros st HI n p E. apply (HI n p E). intros F; exact F. Qed.
+
+Lemma InvT_mono : forall (T T' : string -> Prop) st, (forall n, T n -> T' n) -> InvT T st -> InvT T' st.
+Proof. intros T T' st HT HI n p E Hn. apply (HI n p E). intros Ht. apply Hn. apply HT. exact Ht. Qed.
+
+Lemma InvT_cache : forall T st st', cache program st' = cache program st -> InvT T st -> InvT T st'.
+Proof. intros T st st' E HI n p El. rewrite E in El. exact (HI n p El). Qed.
+
+Lemma InvT_cons : forall (T : string -> Prop) st st' n0 p0,
+  cache program st' = (n0, p0) :: cache program st -> InvT T st ->
+  (~ T n0 -> exists v d fs, p0 = compile v d fs /\ exe_name H tpl v fs = n0 /\ Forall D (hashed H tpl v fs)) ->
+  InvT T st'.
 Proof.
-  induction ops as [|o ops IH]; intros st HI HH; [exact HI|].
-  unfold Cache.run_ops. simpl. destruct HH as [HD HH]. apply IH; [|exact HH].
-  destruct o; simpl; try exact HI. apply invoke_inv; assumption.
+  intros T st st' n0 p0 E HI Hnew n p El Hn. rewrite E in El. cbn [lookup] in El.
+  destruct (String.eqb n n0) eqn:En.
+  - apply String.eqb_eq in En. subst n. injection El as <-. apply Hnew. exact Hn.
+  - exact (HI n p El Hn).
+Qed.
+
+Lemma apply_race_cache : forall st e, cache program (apply_race program st e) = cache program st.
+Proof. intros st e. destruct e; reflexivity. Qed.
+
+(* what a raced invocation does to the cache *)
+Lemma raced_cache : forall (st : state) hf force gc e (sn : bool),
+  let n := exe_name H tpl (ver program st) (dir program st) in
+  let src := if sn then apply_race program st e else st in
+  cache program (fst (invoke_raced H program compile tpl st hf force gc e sn)) = cache program st \/
+  cache program (fst (invoke_raced H program compile tpl st hf force gc e sn)) =
+    (n, compile (ver program st) (dep program src) (dir program src)) :: cache program st.
+Proof.
+  intros st hf force gc e sn n src. unfold invoke_raced, invoke_raced_f. fold n.
+  destruct (dir program st) eqn:Ed; [left; apply apply_race_cache|].
+  destruct hf, gc; cbn [negb]; try (right; reflexivity);
+    destruct (lookup program n (cache program st)); try (right; reflexivity);
+    destruct force; try (right; reflexivity); left; apply apply_race_cache.
+Qed.
+
+Lemma step_invT : forall (T : string -> Prop) st o,
+  match o with Run _ _ _ | RunRaced _ _ _ _ _ => Forall D (hashed_now st) | _ => True end -> InvT T st ->
+  InvT (fun n => T n \/ (taints o = true /\ n = exe_name H tpl (ver program st) (dir program st))) (fst (step st o)).
+Proof.
+  intros T st o HD HI.
+  assert (HI' : InvT (fun n => T n \/ (taints o = true /\ n = exe_name H tpl (ver program st) (dir program st))) st)
+    by (eapply InvT_mono; [|exact HI]; intros n Hn; left; exact Hn).
+  destruct o as [hf force gc e sn| | | | | | | |hf force gc]; try (eapply InvT_cache; [|exact HI']; reflexivity).
+  - (* RunRaced *)
+    cbn [Cache.step]. destruct (raced_cache st hf force gc e sn) as [E|E].
+    + eapply InvT_cache; [exact E|exact HI'].
+    + eapply InvT_cons; [exact E|exact HI'|]. intros Hn.
+      destruct sn.
+      * destruct e as [f b|b].
+        -- exfalso. apply Hn. right. split; reflexivity.
+        -- eexists; eexists; eexists. split; [reflexivity|]. split; [reflexivity|exact HD].
+      * eexists; eexists; eexists. split; [reflexivity|]. split; [reflexivity|exact HD].
+  - (* Run *)
+    cbn [Cache.step].
+    destruct (dir program st) eqn:Ed.
+    + unfold Cache.invoke. rewrite Ed. exact HI'.
+    + destruct (invoke_cases st hf force gc) as [E|[q [_ [_ [_ E]]]]]; [congruence| |]; rewrite E; [|exact HI'].
+      eapply InvT_cons; [reflexivity|exact HI'|]. intros _.
+      eexists; eexists; eexists. split; [reflexivity|]. split; [reflexivity|exact HD].
+Qed.
+
+Lemma run_ops_invT : forall ops (T : string -> Prop) st, InvT T st -> hashed_in ops st ->
+  InvT (fun n => T n \/ In n (tainted ops st)) (run_ops ops st).
+Proof.
+  induction ops as [|o ops IH]; intros T st HI HH.
+  - eapply InvT_mono; [|exact HI]. intros n Hn. left. exact Hn.
+  - destruct HH as [HD HH]. unfold Cache.run_ops. cbn [fold_left]. fold (run_ops ops (fst (step st o))).
+    eapply InvT_mono; [|apply (IH _ _ (step_invT T st o HD HI) HH)].
+    intros n [[Hn|[Ht En]]|Hn]; [left; exact Hn| |right; cbn [tainted]; apply in_or_app; right; exact Hn].
+    right. cbn [tainted]. rewrite Ht. left. symmetry. exact En.
+Qed.
+
+(* without a raced build that saw other magefiles, the plain invariant is kept *)
+Lemma run_ops_inv : forall ops st, tainted ops st = [] -> Inv st -> hashed_in ops st -> Inv (run_ops ops st).
+Proof.
+  intros ops st Ht HI HH. apply InvT_Inv. eapply InvT_mono; [|apply (run_ops_invT ops _ st (Inv_InvT st HI) HH)].
+  intros n [F|Hn]; [exact F|]. rewrite Ht in Hn. exact Hn.
 Qed.
 End WithD.
 
@@ -392,29 +486,81 @@ Proof.
     exists false, d, fs. split; [reflexivity|]. split; [exact HP|discriminate].
 Qed.
 
+(* the same under the invariant with tainted names, for a name that is not tainted *)
+Lemma invoke_freshT : forall (T : string -> Prop) st hf force gc, InvT D T st ->
+  ~ T (exe_name H tpl (ver program st) (dir program st)) -> Forall D (hashed_now st) -> dir program st <> [] ->
+  exists c d fs, snd (invoke st hf force gc) = Ran program c (compile (ver program st) d fs) /\
+               Permutation (contents fs) (contents (dir program st)) /\
+               (c = true -> fs = dir program st /\ d = dep program st).
+Proof.
+  intros T st hf force gc HI HT HD Hd.
+  destruct (invoke_cases st hf force gc Hd) as [E|[q [_ [_ [El E]]]]]; rewrite E; simpl.
+  - exists true, (dep program st), (dir program st). repeat split. apply Permutation_refl.
+  - destruct (HI _ _ El HT) as [v [d [fs [-> [En HDs]]]]].
+    apply (name_inj_same_tpl H D H_shape H_cf) in En; [|exact HDs|exact HD]. destruct En as [HP ->].
+    exists false, d, fs. split; [reflexivity|]. split; [exact HP|discriminate].
+Qed.
+
+(* histories may contain invocations raced by edits ([RunRaced]); the conclusion holds for every
+   later invocation whose cache name is not one under which a raced build stored the program of
+   other magefiles ([tainted]) *)
 Lemma fresh : forall ops st, Inv D st -> hashed_in D ops st -> forall hf force gc,
   let cur := run_ops ops st in
+  ~ In (exe_name H tpl (ver program cur) (dir program cur)) (tainted ops st) ->
   Forall D (hashed_now cur) -> dir program cur <> [] ->
   exists c d fs, snd (step cur (Run hf force gc)) = Ran program c (compile (ver program cur) d fs) /\
                Permutation (contents fs) (contents (dir program cur)) /\
                (c = true -> fs = dir program cur /\ d = dep program cur).
 Proof.
-  intros ops st HI HH hf force gc cur HD Hd. simpl. apply invoke_fresh; [|exact HD|exact Hd].
-  apply run_ops_inv; assumption.
+  intros ops st HI HH hf force gc cur HT HD Hd. simpl.
+  apply (invoke_freshT (fun n => False \/ In n (tainted ops st))); [|intros [F|F]; [exact F|exact (HT F)]|exact HD|exact Hd].
+  apply run_ops_invT; [apply Inv_InvT; exact HI|exact HH].
 Qed.
 
 (* with a go tool whose output depends on the contents only *)
 Lemma fresh_exact : (forall v d a b, Permutation (contents a) (contents b) -> compile v d a = compile v d b) ->
   forall ops st, Inv D st -> hashed_in D ops st -> forall hf force gc,
   let cur := run_ops ops st in
+  ~ In (exe_name H tpl (ver program cur) (dir program cur)) (tainted ops st) ->
   Forall D (hashed_now cur) -> dir program cur <> [] ->
   exists c d, snd (step cur (Run hf force gc)) = Ran program c (compile (ver program cur) d (dir program cur)) /\
               (c = true -> d = dep program cur).
 Proof.
-  intros Hc ops st HI HH hf force gc cur HD Hd.
-  destruct (fresh ops st HI HH hf force gc HD Hd) as [c [d [fs [E [HP Hcur]]]]].
+  intros Hc ops st HI HH hf force gc cur HT HD Hd.
+  destruct (fresh ops st HI HH hf force gc HT HD Hd) as [c [d [fs [E [HP Hcur]]]]].
   exists c, d. fold cur in E. rewrite E. split; [f_equal; apply Hc; exact HP|].
   intros Ec. apply Hcur. exact Ec.
+Qed.
+
+(* no raced build that saw other magefiles: nothing is tainted *)
+Lemma tainted_nil : forall ops st, (forall o, In o ops -> taints o = false) -> tainted ops st = [].
+Proof.
+  induction ops as [|o ops IH]; intros st Hn; [reflexivity|]. cbn [tainted].
+  rewrite (Hn o (or_introl eq_refl)). cbn [app]. apply IH. intros o' Ho. apply Hn. right. exact Ho.
+Qed.
+
+(* the invocation right after one that was raced by an edit of a magefile: it has the NEW contents,
+   whose name is another one - whatever the compiler of the raced build saw, it is fresh *)
+Lemma next_after_raced_edit_fresh : forall st, Inv D st -> forall hf force gc f b sn hf' force' gc',
+  let st1 := fst (step st (RunRaced hf force gc (REdit f b) sn)) in
+  Forall D (hashed_now st) -> Forall D (hashed_now st1) -> dir program st1 <> [] ->
+  ~ Permutation (contents (dir program st1)) (contents (dir program st)) ->
+  exists c d fs, snd (step st1 (Run hf' force' gc')) = Ran program c (compile (ver program st1) d fs) /\
+               Permutation (contents fs) (contents (dir program st1)) /\
+               (c = true -> fs = dir program st1 /\ d = dep program st1).
+Proof.
+  intros st HI hf force gc f b sn hf' force' gc' st1 HD HD1 Hd1 Hnp.
+  pose proof (fresh [RunRaced hf force gc (REdit f b) sn] st HI (conj HD I) hf' force' gc') as F.
+  change (run_ops [RunRaced hf force gc (REdit f b) sn] st) with st1 in F. cbv zeta in F.
+  apply F; [|exact HD1|exact Hd1]. clear F.
+  cbn [tainted]. rewrite app_nil_r. destruct (taints _); [|intros F; exact F].
+  intros [E|F]; [|exact F].
+  assert (Ev : ver program st1 = ver program st).
+  { subst st1. cbn [Cache.step]. unfold invoke_raced, invoke_raced_f. destruct (dir program st); [reflexivity|].
+    destruct hf, gc; cbn [negb]; try reflexivity; destruct (lookup program _ (cache program st)); try reflexivity;
+      destruct force; reflexivity. }
+  rewrite Ev in E. symmetry in E. unfold hashed_now in HD, HD1. rewrite Ev in HD1.
+  apply (name_inj_same_tpl H D H_shape H_cf) in E; [|exact HD1|exact HD]. apply Hnp. exact (proj1 E).
 Qed.
 
 (* every string hashed in any state of a history *)
@@ -430,7 +576,24 @@ Proof.
     destruct (IH (fst (step st o))) as [H1 H2].
     { intros x Hx. apply HP. apply in_or_app. right. exact Hx. }
     split; [|exact H2]. split; [|exact H1].
-    destruct o; try exact I. rewrite Forall_forall. intros x Hx. apply HP. apply in_or_app. left. exact Hx.
+    destruct o; try exact I; rewrite Forall_forall; intros x Hx; apply HP; apply in_or_app; left; exact Hx.
+Qed.
+
+(* a design that files a raced build under the name of the contents on disk AFTER the build
+   ([settle = true], seeded change C08-8A): when the compiler had read the OLD magefiles, the very
+   next hash-mode invocation - of the new contents - runs the old program *)
+Lemma settle_refuted : forall (st : state) force gc f b gc', dir program st <> [] ->
+  lookup program (exe_name H tpl (ver program st) (dir program st)) (cache program st) = None ->
+  let st1 := fst (invoke_raced_f H program compile tpl true st true force gc (REdit f b) false) in
+  dir program st1 = set_file f b (dir program st) /\
+  snd (invoke st1 true false gc') = Ran program false (compile (ver program st) (dep program st) (dir program st)).
+Proof.
+  intros st force gc f b gc' Hd Hl st1. subst st1. unfold invoke_raced_f.
+  destruct (dir program st) as [|x l] eqn:Ed; [congruence|]. cbn [negb]. rewrite Hl. cbn [fst apply_race with_dir Cache.dir Cache.dep Cache.ver].
+  split; [rewrite Ed; reflexivity|].
+  unfold Cache.invoke. cbn [Cache.dir Cache.ver Cache.cache Cache.dep]. rewrite Ed.
+  destruct (set_file f b (x :: l)) eqn:Es; [cbn in Es; destruct (String.eqb (fst x) f); discriminate Es|].
+  cbn [negb lookup]. rewrite String.eqb_refl. reflexivity.
 Qed.
 End Hist.
 
